@@ -112,7 +112,10 @@ def callbacks():
     return _CB
 
 
-def make_sf(mode, words, nguess):
+WIDE_POOL = np.array([3, 100, 260, 300, 455, 511], dtype='uint16')     # intermediate values wider than a byte (Value model)
+
+
+def make_sf(mode, words, nguess, wide=False):
     scared = env.boot()
     w = words
     if isinstance(w, list) and w and w[0] == 'slice':
@@ -128,6 +131,8 @@ def make_sf(mode, words, nguess):
             out = np.empty((plaintext.shape[0], len(guesses), plaintext.shape[1]), dtype='uint8')
             for i, g in enumerate(guesses):
                 out[:, i, :] = plaintext ^ np.uint8(g)
+            if wide:
+                out = WIDE_POOL[out % len(WIDE_POOL)]
             if Hook.sf_extra_at is not None and Hook.sf_calls == Hook.sf_extra_at:
                 Hook.fired = 'refused_in_update:word_count'
                 out = np.concatenate([out, out[:, :, :1]], axis=2)
@@ -139,6 +144,8 @@ def make_sf(mode, words, nguess):
         if Hook.sf_raise_at is not None and Hook.sf_calls == Hook.sf_raise_at:
             Hook.fired = 'callback_error:selection_function'
             raise InjectedFault('injected selection function failure')
+        if wide:
+            plaintext = WIDE_POOL[plaintext % len(WIDE_POOL)]
         if Hook.sf_extra_at is not None and Hook.sf_calls == Hook.sf_extra_at:
             Hook.fired = 'refused_in_update:word_count'
             return np.concatenate([plaintext, plaintext[:, :1]], axis=1)
@@ -155,6 +162,8 @@ def expected_data(scn, model, pt):
             raw[:, g, :] = pt ^ np.uint8(g)
     else:
         raw = pt
+    if scn.get('wide'):
+        raw = WIDE_POOL[raw % len(WIDE_POOL)]
     w = scn['words']
     if w is None:
         sel = raw
@@ -319,6 +328,13 @@ def gen_base(prop, seed, tier):
            'classes': None, 'step': None}
     if kind in ('anova', 'nicv', 'snr', 'mia'):
         scn['classes'] = r.choice([None, list(range(9)), list(range(9)), [8, 7, 6, 5, 4, 3, 2, 1, 0], [0, 2, 4, 6, 8, 1], list(range(12))])
+    wr = rng.stream(seed, 'wide')
+    if kind in ('anova', 'nicv', 'snr', 'mia') and wr.random() < 0.12:
+        # class values wider than a byte with the Value model (explicit classes: permuted, with an extra unused value, or leaving one undeclared)
+        scn['wide'] = True
+        scn['model'] = 'value'
+        pool = [int(x) for x in WIDE_POOL]
+        scn['classes'] = wr.choice([pool, pool[::-1], pool + [1000], [455, 3, 511, 100, 300, 260], pool[:-1] if kind != 'mia' else pool])
     cw = rng.stream(seed, 'constword')
     if cw.random() < 0.15 and (kind in ('cpa', 'dpa') or scn['classes'] is not None):
         scn['const_word'] = cw.choice([0, 7, 255])
@@ -446,14 +462,38 @@ def recording(K, rec, storage):
     return Rec
 
 
-def fresh_results(scn, sf, EE, DD):
-    """Same class, fresh object, all rows in ONE update, neutral conditions."""
+class _OneShot:
+    pass
+
+
+def standalone(scn):
+    """The standalone distinguisher 'of the same kind' (C02: "applying the same distinguisher once to all traces"): not the analysis class, so
+    that configuration wiring done by the Attack/Reverse classes (partitions, bin edges, precision) cannot be wrong on both sides."""
     scared = env.boot()
-    K = classes_of(scared)[scn['kind']][0 if scn['mode'] == 'attack' else 1]
-    a = K(**analysis_kwargs(scn, sf))
+    kind = scn['kind']
+    prec = scn['precision']
+    if kind == 'cpa':
+        return scared.CPADistinguisher(precision=prec)
+    if kind == 'dpa':
+        return scared.DPADistinguisher(precision=prec)
+    if kind in ('anova', 'nicv', 'snr'):
+        K = {'anova': scared.ANOVADistinguisher, 'nicv': scared.NICVDistinguisher, 'snr': scared.SNRDistinguisher}[kind]
+        return K(partitions=scn['classes'], precision=prec)
+    if kind == 'mia':
+        return scared.MIADistinguisher(bin_edges=np.linspace(scn['mia']['lo'], scn['mia']['hi'], scn['mia']['bins'] + 1), partitions=scn['classes'], precision=prec)
+    raise KeyError(kind)
+
+
+def fresh_results(scn, sf, EE, DD):
+    """Standalone distinguisher, fresh object, all rows in ONE update, neutral conditions; scores = discriminant(results)."""
+    scared = env.boot()
+    d = standalone(scn)
     with env.clock(env.SimClock()), env.memory(env.SimMemory()):
-        a.update(traces=EE, data=DD)
-        a.compute_results()
+        d.update(traces=EE, data=DD)
+        res = d.compute()
+    a = _OneShot()
+    a.results = res
+    a.scores = getattr(scared, scn['discriminant'])(res) if scn['mode'] == 'attack' else None
     return a
 
 
@@ -476,7 +516,7 @@ def _execute(scn, scared):
     storage = Storage()
     rec = Recorder()
     sets = make_sets(scn)
-    sf = make_sf(scn['mode'], scn['words'], scn['nguess'])
+    sf = make_sf(scn['mode'], scn['words'], scn['nguess'], scn.get('wide', False))
     cb = callbacks()
     pps = [cb[c] for c in scn['chain']]
     K = classes_of(scared)[scn['kind']][0 if scn['mode'] == 'attack' else 1]
@@ -820,14 +860,16 @@ def _check_convergence(scn, scared, att, rec, sf, EE, DD, cols_after_run, probes
 
     if not same(ct[..., -1], np.asarray(att.scores).astype(ct.dtype)):
         return viol('last_column_not_final_scores', [prop, 'last_column_not_final_scores', scn['kind']], 'last column differs from scores')
-    K = None if fresh is not None else classes_of(scared)[scn['kind']][0]
     sc_at = {}
     for b in bounds:
-        a = fresh() if fresh is not None else K(**analysis_kwargs(scn, sf))
         try:
-            with env.clock(env.SimClock()), env.memory(env.SimMemory()):
-                a.update(traces=EE[:b], data=DD[:b])
-                a.compute_results()
+            if fresh is not None:
+                a = fresh()             # template attacks: a fresh built attack object (there is no standalone matching distinguisher)
+                with env.clock(env.SimClock()), env.memory(env.SimMemory()):
+                    a.update(traces=EE[:b], data=DD[:b])
+                    a.compute_results()
+            else:
+                a = fresh_results(scn, sf, EE[:b], DD[:b])
             sc_at[b] = np.asarray(a.scores).astype(ct.dtype)
         except Exception:
             pass
